@@ -214,7 +214,8 @@ fn rich_doc(ctx: &Ctx) -> MDoc {
 /// Structural spans of an arbitrary PDF image, found by scanning for the keys
 /// whose values are lengths, offsets, counts and widths.
 fn scan_hot(img: &[u8]) -> Vec<(usize, usize)> {
-    let mut tail = vec![(img.len().saturating_sub(16), img.len())];
+    // the file tail (startxref / %%EOF) several times, so that it is hit as often as the many keyed fields
+    let mut tail = vec![(img.len().saturating_sub(16), img.len()); 6];
     tail.extend(scan_hot_keys(img));
     tail
 }
